@@ -35,6 +35,13 @@ for sid in ids:
         if p not in seen:
             seen.add(p); order.append(p)
     entry = {"head": head, "patch": os.path.basename(patch), "tried": [], "caught_by": None, "patch_applies": True}
+    if str(meta.get("status", "")).startswith("obsolete"):
+        # a change that a later repair of /repo has made harmless (see its meta.json): recorded, not expected to be caught
+        entry["caught_by"] = "n/a (obsolete at this head: " + meta["status"][:60] + "...)"
+        res[sid] = entry
+        json.dump(res, open(out_path, "w"), indent=1, sort_keys=True)
+        print(sid, "obsolete", flush=True)
+        continue
     for p in order:
         t0 = time.time()
         r = subprocess.run([V + "/tools/seed_check.sh", patch, p], capture_output=True, text=True)
